@@ -9,7 +9,9 @@ from ..e2e import HEADER, CASE_TYPE, CHECK, MODEL_VIEW, SHARD, CASE_TIMEOUT, obs
 ID = "C16"
 THEOREMS = ["C16_include_flattens", "C16_include_moved", "C16_fuel_monotone", "C16_comment_skipped",
             "C16_comment_skipped_in_block", "C16_case_insensitive", "C16_opcode_lowered", "C16_scan_compositional",
-            "C16_invisible_block", "C16_blank_lines", "C16_blank_lines_at_top"]
+            "C16_invisible_block", "C16_blank_lines", "C16_blank_lines_at_top", "C16_line_comment", "C16_line_comment_at_top",
+            "C16_block_comment", "C16_block_comment_at_top", "C16_indentation_at_top", "C16_indentation",
+            "C16_line_replacement_partial"]
 RULE = ("valid programs (generated + the repository's sample sources) x 6 random compositions of the listed presentation "
         "changes applied at every applicable position: blank lines, indentation (spaces/tabs), trailing spaces, full-line and "
         "end-of-line ';' comments, '/* */' comments between statements, spaces next to binary operators and commas and inside "
@@ -21,16 +23,19 @@ PROVED_NOTE = ("proved: an included file becomes a block that code generation fl
                "monotonicity of code generation); the parser drops COMMENT tokens at statement boundaries; size suffix and index "
                "register are read through lower-casing (parser), the mnemonic through lower-casing (code generation). "
                "scanner: scanning is compositional at line ends (for success and for reported errors), so any block of "
-               "whole lines that scans to nothing significant - blank lines (closed form), comment lines (generic theorem + "
-               "computed instances) - can be inserted or removed without changing the significant tokens, later lines shift. "
-               "Correspondence-only (partial): indentation / trailing spaces / end-of-line comments / spaces inside operands "
-               "and the letter case of mnemonics at the text level - metamorphic runs and the scanner model tie (SCAN).")
+               "whole lines that scans to nothing significant can be inserted or removed without changing the significant "
+               "tokens, later lines shift; closed forms with purely textual hypotheses for blank lines, full-line ';' comments "
+               "(any text) and '/* */' comments (any text without the closing pair, multi-line included); indentation in front of "
+               "any line changes only the columns on that line (exact equation, errors included). "
+               "Correspondence-only (partial): trailing spaces / end-of-line comments / spaces inside operands (reduced by "
+               "C16_line_replacement_partial to a decidable fact on the changed lines, not proved in general) and the letter "
+               "case of mnemonics at the text level - metamorphic runs and the scanner model tie (SCAN).")
 MANIFEST = {
     "text": ("Coq theorems on include flattening, comment skipping and case folding in the parser / code-generation models; "
              "scanner layout-insensitivity is checked metamorphically: re-laid-out programs must give identical blocks, offsets "
              "and symbol values on the implementation, and the composed model must agree with the implementation on the "
              "re-laid-out text."),
-    "note": ("Partial: intra-line spacing, end-of-line comments and mnemonic letter case at the text level are validated by metamorphic correspondence, not proved. "
+    "note": ("Partial: trailing blanks, end-of-line comments, spaces inside operands and mnemonic letter case at the text level are validated by metamorphic correspondence, not proved (comment lines, blank lines and indentation are proved). "
              "Trusted: Coq kernel/vm_compute, harness. No axioms."),
     "technique": "Coq proof (include flattening, comment skip, case folding) + metamorphic layout twins + model correspondence",
 }
